@@ -65,16 +65,18 @@ func HarnessOps(k int, n int) {
 			for i := range toks {
 				fresh = vh.And(fresh, !vh.StrEq(t.Token, toks[i]))
 			}
+			distinct := true
 			for _, o := range issued {
-				fresh = vh.And(fresh, !vh.StrEq(t.Token, o))
+				distinct = vh.And(distinct, !vh.StrEq(t.Token, o))
 			}
-			if vh.FromRandomSource(t.Token) {
-				vh.Assume(fresh) // distinctness of random strings: an assumption about the generator
-			} else {
-				// any other way of making tokens has to guarantee it
-				vh.Assert("C10/issued-tokens-pairwise-distinct", fresh)
-				vh.Assume(fresh)
+			if !vh.FromRandomSource(t.Token) {
+				// any other way of making tokens than the cryptographic generator has to guarantee that
+				// two tokens issued by this process differ (e.g. not a function of the clock)
+				vh.Assert("C10/issued-tokens-pairwise-distinct", distinct)
 			}
+			// distinctness of random strings (from each other, from the admin token and from the
+			// arbitrary tokens already stored): an assumption about the generator
+			vh.Assume(vh.And(fresh, distinct))
 			issued = append(issued, t.Token)
 			in = vh.Or(in, vh.StrEq(probe, t.Token))
 			// it authenticates from that moment
@@ -132,5 +134,34 @@ func HarnessRevokeRace(k int) {
 			vh.Assert("C10/other-tokens-unaffected-by-revocation", vh.And(oerr == nil, o != nil))
 		}
 	}
+	vh.Reach("end")
+}
+
+// HarnessOddValues: strings are atoms in the encoding, so values whose bytes matter - quotes that
+// would end an SQL literal if a statement were assembled from data, SQL wildcards, case variants,
+// prefixes - come from a menu of concrete strings. One revocation of such a value, then: it does
+// not authenticate itself, and both stored tokens and the admin token still do.
+func HarnessOddValues() {
+	const admin, a, b = "Adm1n-token_9z", "Stored-tok_7q", "Other-tok_3w"
+	db := vhdb.NewDB()
+	vhdb.InsertTokenRow(db, dto.DbToken{Token: a, CreatedAt: vh.NondetTime("created")})
+	vhdb.InsertTokenRow(db, dto.DbToken{Token: b, CreatedAt: vh.NondetTime("created")})
+	svc := service.NewTokenService(hstore.Repos(db), admin)
+	odd := []string{"x' OR '1'='1", "' OR ''='", "x' OR token LIKE '%", "Stored-tok_7q' --", "%", "_tored-tok_7q", "Stored-tok_7", "stored-tok_7q", "STORED-TOK_7Q",
+		"Stored-tok_7q ", "", "Stored-tok_7q\x00", a + b, "x'; DELETE FROM tokens; --", "\\", "x\" OR \"1\"=\"1"}
+	x := odd[vh.Choose(len(odd))]
+	vh.Observe("value", x)
+
+	got, gerr := svc.GetToken(x)
+	vh.Assert("C10/authenticates-iff-admin-or-issued-and-not-revoked", gerr != nil && got == nil)
+	_ = svc.DeleteToken(x)
+	got, gerr = svc.GetToken(x)
+	vh.Assert("C10/authenticates-iff-admin-or-issued-and-not-revoked", gerr != nil && got == nil)
+	for _, t := range []string{a, b} {
+		o, oerr := svc.GetToken(t)
+		vh.Assert("C10/other-tokens-unaffected-by-revocation", oerr == nil && o != nil && !o.IsAdmin)
+	}
+	ad, aerr := svc.GetToken(admin)
+	vh.Assert("C10/admin-always-authenticates-as-admin", aerr == nil && ad != nil && ad.IsAdmin)
 	vh.Reach("end")
 }
